@@ -2,7 +2,7 @@
    Statements only; proofs in Proofs/HandshakeP.v, Proofs/Base64P.v, Proofs/Sha1P.v. *)
 From Coq Require Import List NArith ZArith Bool.
 From WS Require Import Base.Words Gen.Consts Gen.AcceptCode Model.Proto Model.Fold Model.Base64 Model.Sha1 Model.Origin Model.Handshake
-  Proofs.Base64P Proofs.Sha1P Proofs.HandshakeP Proofs.GenTieP Model.HsCompose Gen.HeaderCode Proofs.GenTie2P.
+  Proofs.Base64P Proofs.Sha1P Proofs.HandshakeP Proofs.GenTieP Model.HsCompose Gen.HeaderCode Proofs.GenTie2P Gen.ParseCode.
 Import ListNotations.
 
 (* Accept answers 101 (and takes the connection over) exactly for the requests the property describes: GET, HTTP/1.1 or
@@ -65,3 +65,15 @@ Theorem C11_response_is_source : forall a, ar_status a = Z.to_nat gen_accept_sta
                  (match ar_copts a with Some c => gen_render_copts (cnct c) (snct c) | None => [] end)) |}.
 Proof. exact lib_response_is_source. Qed.
 Print Assumptions C11_response_is_source.
+
+(* the subprotocol is chosen the way selectSubprotocol (accept.go, Gen/ParseCode.v) walks the two lists — the server's preference outside,
+   the client's tokens inside — and the spelling it returns is the one the source returns; the tokens are cut the way headerTokens cuts them *)
+Theorem C11_subprotocol_selection_is_source : forall server cps,
+  select_subprotocol server cps = run_subprotocol gen_subprotocol_pick server cps.
+Proof. exact select_subprotocol_is_source. Qed.
+Print Assumptions C11_subprotocol_selection_is_source.
+
+Theorem C11_tokens_are_source : forall h k,
+  hs_tokens h k = flat_map (fun v => map hs_trim (hs_split gen_token_sep (hs_trim v) [])) (hs_values h k).
+Proof. exact hs_tokens_is_source. Qed.
+Print Assumptions C11_tokens_are_source.
